@@ -11,7 +11,7 @@ import numpy as np
 from scipy.sparse import csr_array
 
 from common import coq_eval, parse_ints, try_coq
-from solvers import COMBOS, Prepared, dense_design, expanded_basis, forces_from_fc, solver_cells
+from solvers import solve_with_batch, COMBOS, Prepared, dense_design, expanded_basis, forces_from_fc, solver_cells
 
 UNITS = ["ReshapeGen", "SolverStruct", "BatchGen", "DesignGen"]
 PROPS = ["props/C05.v"]
@@ -155,7 +155,7 @@ def check(ctx):
                             os.environ["SYMFC_VERIF_SOLVER_NBATCH"] = str(min(nb, P.N))
                         try:
                             o = P.new(d, f)
-                            o.solve(orders=list(orders), is_compact_fc=compact, batch_size=bs)
+                            solve_with_batch(o, P, orders, compact, bs)
                         finally:
                             os.environ.pop("SYMFC_VERIF_SOLVER_NBATCH", None)
                         ctx.case({"cell": P.sc["name"], "orders": list(orders), "compact": compact, "batch": bs, "atom_batches": nb, "n_snap": n}, nontrivial=True)
